@@ -383,6 +383,7 @@ func (p *parser) _recover() bool {
 
 	for {
 		save := p._stack
+		found := errSym
 
 		for len(p._stack) >= 1 {
 			state := p._stack.Peek(0).State
@@ -410,10 +411,22 @@ func (p *parser) _recover() bool {
 				p._qla = p._la
 				p._qlasym = p._lasym
 				p._la = ERROR
-				p._lasym = errSym
+				p._lasym = found
 				return true
 			}
 
+			// An ERROR that was shifted but never reduced has not been reported to
+			// any action. If it is discarded, the error that replaces it stands for
+			// it, so that the first error reported is the first one detected.
+			if len(p._stack) >= 2 {
+				below := p._stack.Peek(1).State
+				shifted, ok := _Find(_actions, below, int32(ERROR))
+				if ok && shifted == p._stack.Peek(0).State {
+					if pending, ok := p._stack.Peek(0).Sym.(Error); ok {
+						found = pending
+					}
+				}
+			}
 			p._stack.Pop(1)
 		}
 
